@@ -101,7 +101,7 @@ fn ostats_map(o: &OStats) -> BTreeMap<String, u64> {
         ingest_filtered_own, ingest_filtered_foreign, known_exact, known_exact_nonempty, known_safety_only,
         known_with_expired_entries, discovered_judged, discovered_skipped, dumps_judged, dump_entries,
         dumps_with_expired, c16_instances, c16_dump_checks, probes_sent, probes_answered, probes_excluded,
-        api_probes, resolver_probes, panics_seen, refresh_queries, truncated_accepted, announcements_judged, tokio_windows, tokio_replies_judged, tokio_known_exact, tokio_ingests);
+        api_probes, resolver_probes, panics_seen, refresh_queries, truncated_accepted, announcements_judged, tokio_windows, tokio_replies_judged, tokio_known_exact, tokio_ingests, ipv6_ingests, ipv6_replies_judged);
     m
 }
 
@@ -166,7 +166,7 @@ fn one_run(prop: &str, sc: &Scenario, tally: &mut Tally) -> Result<Vec<Finding>,
     if an.stats.cut_short {
         tally.step_limit_runs += 1;
     }
-    *tally.profiles.entry(format!("{:?}", sc.profile)).or_default() += 1;
+    *tally.profiles.entry(format!("{:?}{}", sc.profile, if sc.v6 { "/ipv6" } else { "" })).or_default() += 1;
     for (k, v) in ostats_map(&an.stats) {
         *tally.ostats.entry(k).or_default() += v;
     }
